@@ -12,7 +12,7 @@ HALF = 0.125
 FEATURES = ('windows', 'timeouts', 'nesting', 'forever', 'failures',
             'critical', 'never', 'slow_cleanup', 'slow_handlers', 'stalls',
             'verbose', 'coro', 'zero_jobs', 'sd_none', 'never_handler',
-            'inspect', 'cleanup_exc')
+            'inspect', 'cleanup_exc', 'self_cancel', 'odd_labels')
 
 # probability that a feature is enabled at all in a run
 BASE_PROFILE = {
@@ -20,7 +20,7 @@ BASE_PROFILE = {
     'failures': 0.45, 'critical': 0.35, 'never': 0.3, 'slow_cleanup': 0.25,
     'slow_handlers': 0.3, 'stalls': 0.2, 'verbose': 0.15, 'coro': 0.4,
     'zero_jobs': 0.35, 'sd_none': 0.2, 'never_handler': 0.1, 'inspect': 0.2,
-    'cleanup_exc': 0.15,
+    'cleanup_exc': 0.15, 'self_cancel': 0.15, 'odd_labels': 0.2,
     'max_jobs': 14, 'max_depth': 3, 'pure_top': 0.3,
 }
 
@@ -91,6 +91,11 @@ class _Gen:
                 node["exc_noargs"] = True
             elif rng.random() < 0.15:
                 node["exc_base"] = True
+            elif rng.random() < 0.15:
+                node["exc_type"] = "timeout"
+        if feat['odd_labels'] and rng.random() < 0.4:
+            node["label"] = rng.choice((None, "{}", "echo ${HOME} {0}",
+                                        "50% {x} %s", "a\nb"))
         if feat['inspect'] and rng.random() < 0.3:
             step = ["inspect", rng.choice(("parent", "parent", "top")) + ":"
                     + rng.choice(("list", "cycles", "topo", "stats",
@@ -189,6 +194,16 @@ class _Gen:
             for m in members:
                 if not S.is_sched(m) and rng.random() < 0.25:
                     m["handler"] = "never"
+        if feat['odd_labels'] and not top and rng.random() < 0.3:
+            node["label"] = rng.choice((None, "{}", "deploy {node}", "%d%%"))
+        # jobs that end with a CancelledError of their own: only where nothing
+        # requires them (what a requirement on such a job means is unspecified)
+        if feat['self_cancel']:
+            required = {a for a, _ in edges}
+            for i, m in enumerate(members):
+                if not S.is_sched(m) and i not in required \
+                        and m['outcome'] == 'ret' and rng.random() < 0.3:
+                    m['outcome'] = 'self_cancel'
         # never-ending jobs
         if feat['never']:
             for m in members:
@@ -285,7 +300,7 @@ def gen_tree(rng, prof=None):
     return top, gen.feat
 
 
-def gen_knobs(rng, feat):
+def gen_knobs(rng, feat, prof=None):
     stall = 0
     if feat.get('stalls'):
         stall = rng.choice((3, 6, 6, 10))
@@ -301,6 +316,15 @@ def gen_knobs(rng, feat):
         "noise": rng.choice((0, 0, 0, 0.25, 0.125)),
         "sched_seed": rng.randrange(1 << 30),
     }
+
+
+def maybe_wait_for(knobs, rng, prof):
+    """with the profile's probability, the run is driven through
+    asyncio.wait_for with a bound on the grid"""
+    if prof and rng.random() < prof.get('wait_for_entry', 0.0):
+        knobs['entry'] = 'wait_for'
+        knobs['entry_timeout'] = rng.choice(GRID) + rng.choice((0.0, HALF))
+    return knobs
 
 
 def gen_scenario(seed, prof=None):
